@@ -9,7 +9,7 @@ plan = {
   "dc": {"omit_l2_at_31": bool, "skew_ticks": int, "domain": str, "forest": str, "pad_mode": str, "header_sign": bool, "byz": {}},
   "ctx": {"kind": "stub", "legs": 2, "sig": 16} | {"kind": "ntlm"} | {"kind": "negotiate"},
   "caller_sids": [sid, ...],
-  "delivery": {...} | None, "latency_us": [lo, hi], "use_dns": bool,
+  "delivery": {...} | None, "latency_us": [lo, hi], "use_dns": bool, "cred_fault": "stub-raise"|"ntlm-unknown-user"|"kerberos-not-installed" (credential acquisition fails),
   "ops": [ {"op": "load_key", "rk": i},
            {"op": "protect", "fl": "sync"|"async", "sid": s, "rk": i|None, "net": "online"|"offline", "data": n, "group": g|None},
            {"op": "unprotect", "fl": .., "net": .., "blob": {"rk": i, "sid": s, "pos": [l0,l1,l2], "mode": "nonce"|"pub", "trailing": bool, "data": n}
@@ -183,6 +183,20 @@ def execute_plan(plan: dict, kdf_limit: int = 300, keep_events: bool = False) ->
         ctx_factory = None
         creds = {"username": f"{NTLM_DOMAIN}\\{NTLM_USER}", "password": NTLM_PASS}
         ap = proto
+    if plan.get("cred_fault"):
+        # fault: the caller's credential cannot be acquired (no ticket / no password / provider not installed); the provider raises
+        # when the security context is created
+        cf = plan["cred_fault"]
+        if cf == "stub-raise":
+            import spnego.exceptions as _sx
+
+            def ctx_factory(*a, **kw):  # noqa: F811
+                world.stats["cred_fault"] += 1
+                raise _sx.OperationNotAvailableError(context_msg="simulated: no usable credential for the requested provider")
+        else:
+            ctx_factory = None
+            creds = {"username": "ELSEWHERE\\nobody"}
+            ap = {"ntlm-unknown-user": "ntlm", "kerberos-not-installed": "kerberos"}[cf]
     rpc_knobs = {"pad_mode": dcc.get("pad_mode", "min16"), "header_sign": dcc.get("header_sign", True)}
     dc = refdc.RefDC(world, rks, host=offline.DC, caller_sids=set(plan.get("caller_sids", [])), acceptor_factory=acc_factory,
                      domain=dcc.get("domain", "domain.test"), forest=dcc.get("forest", "domain.test"),
